@@ -106,4 +106,12 @@ theorem gen_offset_is_model (a : EPt) (d : Nat) (hd : d < 2) (hri : a.ri ≤ 4) 
   · have : ¬ a.ri ≥ 4 := by omega
     simp [h4, this]
 
+-- non-vacuity of the hypotheses of `gen_createStraight_is_model` and `gen_bend_is_model`: both constructors do return
+-- `some` on ordinary inputs (control scene of Lemmas/TopoConsGen: node 1 at its opening scan line 21; a bend at the TR
+-- corner of a node)
+example :
+    (createStraight 0 AdaptaVerif.Lemmas.TopoConsGen.wSg AdaptaVerif.Lemmas.TopoConsGen.w1' 21).isSome = true ∧
+    (createBend 0 1 ⟨⟨0, ⟨0, 10, 0, 10⟩⟩, 4⟩ ⟨⟨1, ⟨20, 30, 40, 50⟩⟩, 0⟩ ⟨⟨2, ⟨50, 60, 20, 30⟩⟩, 4⟩).isSome = true := by
+  decide +kernel
+
 end AdaptaVerif.Props.C13ConsTie
